@@ -180,6 +180,95 @@ theorem C10_gen_calc_actionPenalty (s : SimState) (it : Item) (ap dn : Val) (r l
   by_cases h : it.action = "do-nothing" <;> simp [Gen.Reward.calc_ActionPenalty, calcActionPenalty, h]
 
 
+/-! ### `access_from_nested_dict` itself -/
+
+theorem access_nil_any (v : PyVal) : PyVal.access v [] = .ok v := by cases v <;> rfl
+
+theorem pyEq_succ_zero (n : Nat) : PyVal.pyEq (.int ((n : Int) + 1)) (.int 0) = false := by
+  simp only [PyVal.pyEq, PyVal.asNum]
+  simp only [beq_eq_false_iff_ne, ne_eq]
+  intro e
+  have := Rat.intCast_inj.mp e
+  omega
+
+/-- the environment one call of `access_from_nested_dict(d, keys)` runs in, recursive calls answered by `rec` -/
+def accessEnv (rec : PyVal → PyVal → Except Err PyVal) (d keys : PyVal) : Env :=
+  { state := .none, item := { action := "", request := .none, status := "" }, config := [], reward := .none,
+    locals := [("dictionary", d), ("keys", keys)], recCall := rec }
+
+/-- one call with no key left returns the value -/
+theorem access_body_nil (rec : PyVal → PyVal → Except Err PyVal) (d : PyVal) :
+    fnResult (exec Gen.Reward.fn_access_from_nested_dict (accessEnv rec d (.list []))) = .ok d := by
+  simp [fnResult, accessEnv, Gen.Reward.fn_access_from_nested_dict, pyIs, pyIterList, pyLen, PyVal.pyEq, PyVal.asNum]
+
+/-- one call with a first key `k`: exactly one level of `PyVal.access`, the rest delegated to the recursive call -/
+theorem access_body_cons (rec : PyVal → PyVal → Except Err PyVal) (d : PyVal) (k : String) (ks : List String) :
+    fnResult (exec Gen.Reward.fn_access_from_nested_dict (accessEnv rec d (.list (.str k :: ks.map .str)))) =
+      (match d with
+       | .dict kvs =>
+         match kvs.lookup (.str k) with
+         | some v => rec v (.list (ks.map .str))
+         | none => .ok .notPresent
+       | .list xs => if xs.any (fun x => PyVal.pyEq x (.str k)) then .error .typeError else .ok .notPresent
+       | .str s => if PyVal.isInfix k.toList s.toList then .error .typeError else .ok .notPresent
+       | _ => .error .typeError) := by
+  cases d with
+  | dict kvs =>
+    cases hl : kvs.lookup (.str k) with
+    | none =>
+      simp [fnResult, accessEnv, Gen.Reward.fn_access_from_nested_dict, pyIs, pyIterList, pyLen, pyEq_succ_zero, pyIn, toKey, hl]
+    | some v =>
+      simp [fnResult, accessEnv, Gen.Reward.fn_access_from_nested_dict, pyIs, pyIterList, pyLen, pyEq_succ_zero, pyIn, toKey, hl, pyIndex]
+      cases rec v (PyVal.list (ks.map PyVal.str)) <;> rfl
+  | list xs =>
+    by_cases hin : xs.any (fun x => PyVal.pyEq x (.str k)) = true
+    · simp [fnResult, accessEnv, Gen.Reward.fn_access_from_nested_dict, pyIs, pyIterList, pyLen, pyEq_succ_zero, pyIn, hin, pyIndex]
+    · simp [fnResult, accessEnv, Gen.Reward.fn_access_from_nested_dict, pyIs, pyIterList, pyLen, pyEq_succ_zero, pyIn, hin]
+  | str s =>
+    by_cases hin : PyVal.isInfix k.toList s.toList = true
+    · simp [fnResult, accessEnv, Gen.Reward.fn_access_from_nested_dict, pyIs, pyIterList, pyLen, pyEq_succ_zero, pyIn, hin, pyIndex]
+    · simp [fnResult, accessEnv, Gen.Reward.fn_access_from_nested_dict, pyIs, pyIterList, pyLen, pyEq_succ_zero, pyIn, hin]
+  | _ => simp [fnResult, accessEnv, Gen.Reward.fn_access_from_nested_dict, pyIs, pyIterList, pyLen, pyEq_succ_zero, pyIn]
+
+theorem runFunction_succ (body : Stmt) (p1 p2 : String) (fuel : Nat) (a b : PyVal) :
+    runFunction body p1 p2 (fuel + 1) a b =
+      fnResult (exec body { state := .none, item := { action := "", request := .none, status := "" }, config := [], reward := .none,
+                            locals := [(p1, a), (p2, b)], recCall := runFunction body p1 p2 fuel }) := by
+  rw [runFunction]
+
+/-- **`access_from_nested_dict`, semantic tie.** The body of `access_from_nested_dict(dictionary, keys)` in
+game/agent/utils.py — translated statement by statement on every run, recursion included — interpreted on ANY value and ANY
+list of string keys, with as many unfoldings as there are keys plus one, answers exactly what the model's `PyVal.access`
+answers: the value, `NOT_PRESENT_IN_STATE`, or the same exception. (Replaces the text tie of this function.) -/
+theorem C10_gen_access (ks : List String) : ∀ d : PyVal,
+    runFunction Gen.Reward.fn_access_from_nested_dict "dictionary" "keys" (ks.length + 1) d (PyVal.strs ks) = PyVal.access d ks := by
+  induction ks with
+  | nil =>
+    intro d
+    rw [List.length_nil, runFunction_succ]
+    exact (access_body_nil _ d).trans (access_nil_any d).symm
+  | cons k ks ih =>
+    intro d
+    rw [List.length_cons, runFunction_succ]
+    have h := access_body_cons (runFunction Gen.Reward.fn_access_from_nested_dict "dictionary" "keys" (ks.length + 1)) d k ks
+    simp only [accessEnv, PyVal.strs, List.map_cons] at h ⊢
+    rw [h]
+    cases d with
+    | dict kvs =>
+      simp only [PyVal.access]
+      cases kvs.lookup (.str k) with
+      | none => rfl
+      | some v => exact ih v
+    | list xs => simp only [PyVal.access]
+    | str s => simp only [PyVal.access]
+    | _ => simp only [PyVal.access]
+
+/-- `keys is None` (a component whose `location_in_state` was never set): `NOT_PRESENT_IN_STATE` -/
+theorem C10_gen_access_none (d : PyVal) (fuel : Nat) :
+    runFunction Gen.Reward.fn_access_from_nested_dict "dictionary" "keys" (fuel + 1) d .none = .ok .notPresent := by
+  rw [runFunction_succ]
+  simp [fnResult, Gen.Reward.fn_access_from_nested_dict, pyIs]
+
 /-! ## 2. Non-interference: what a component's value can depend on -/
 
 /-- two history items agree on the fields a component reads -/
